@@ -66,16 +66,32 @@ impl LsmVerifier {
         //
         // We pop twice.  It's guaranteed by list_mani_fragments function
         // to put these at the end.  If we pop too much, that's OK.
+        let all_entries = entries.clone();
         entries.pop();
         entries.pop();
-        for entry in entries {
+        for (idx, entry) in entries.iter().enumerate() {
             // 1. We're going to always process the lowest numbered log.
-            self.process_one(&entry)?;
+            self.process_one(entry, &all_entries[idx + 1..])?;
         }
         Ok(())
     }
 
-    fn process_one(&mut self, entry: &PathBuf) -> Result<(), SError> {
+    // The ssts removed by any of the provided fragments.
+    fn removed_by(fragments: &[PathBuf]) -> Result<Vec<Setsum>, SError> {
+        let mut removed = vec![];
+        for fragment in fragments {
+            for edit in ManifestIterator::open(fragment)? {
+                for rmed in edit?.rmed() {
+                    if let Some(setsum) = Setsum::from_hexdigest(rmed) {
+                        removed.push(setsum);
+                    }
+                }
+            }
+        }
+        Ok(removed)
+    }
+
+    fn process_one(&mut self, entry: &PathBuf, later: &[PathBuf]) -> Result<(), SError> {
         // This will conditionally perform steps 6 and 7 if there's an unprocessed edit.
         self.possibly_complete_processing(entry)?;
         if let Some(last_entry_processed) = self.mani.info('M') {
@@ -91,7 +107,12 @@ impl LsmVerifier {
         assert!(self.mani.strs().count() == 0);
         // 2.  Collect the list of ssts and logs to be removed.  Wait until all are present.
         let verifier_setsum = setsum_from_info_default('O', self.mani.info('O'))?;
-        let (output_setsum, ssts_to_rm, logs_to_rm) = self.verify_one(entry, verifier_setsum)?;
+        let (output_setsum, mut ssts_to_rm, logs_to_rm) = self.verify_one(entry, verifier_setsum)?;
+        // A file that a later fragment removes again was created anew, with the same contents and
+        // therefore the same name, after this fragment removed it.  The copy in the trash belongs
+        // to that later removal, which may need it to verify a garbage collection.  Leave it.
+        let removed_later = Self::removed_by(later)?;
+        ssts_to_rm.retain(|sst| !removed_later.contains(sst));
         let mut edit = Edit::default();
         for sst in ssts_to_rm.iter() {
             let path = TRASH_SST(&self.root, *sst);
